@@ -21,7 +21,7 @@ PROP = "C08"
 LEVEL = "exploration"
 
 # atom -> (written text, expanded value)    Template:a = "A[{{{1}}}]"
-ATOMS = [("a", "a"), (" a", " a"), ("a ", "a "), ("\na", "\na"), ("k=v", None), (" k = v ", None), ("k=\nv", None),
+ATOMS = [("1=p", None), ("a", "a"), (" a", " a"), ("a ", "a "), ("\na", "\na"), ("k=v", None), (" k = v ", None), ("k=\nv", None),
          ("2=v", None), ("j= {{a|z}} ", None), ("{{a|x}}", "A[x]"), (" {{a| y }} ", " A[ y ] "), ("x y", "x y"), ("m=", None)]
 EXPAND = {"{{a|z}}": "A[z]"}
 
@@ -239,8 +239,6 @@ def work(payload, skip, report):
         i = 0
         for rest in itertools.product(names, repeat=length - len(prefix)):
             lst = list(prefix) + list(rest)
-            if not in_domain(lst):
-                continue
             report(i)
             i += 1
             out = check_args(ctx, lst)
